@@ -115,9 +115,25 @@ def run(ctx):
     g = sim.methods.get("__Get_state")
     if g is not None and "__Get_state" in writers.get(zold, {}):
         r2.instance(fn=g.qualname)
-        ok = all(isinstance(n, ast.Assign) and isinstance(n.value, ast.Call) and (dotted(n.value.func) or "").endswith("State_zeros") for n, k in writers[zold]["__Get_state"])
-        guarded = any(isinstance(n, ast.If) and isinstance(n.test, ast.Compare) and isinstance(n.test.ops[0], ast.NotIn) for n in ast.walk(g.node))
-        if ok and guarded:
+        # interpreted (the statement shape `if key not in d: d[key] = State_zeros(..)` used to be matched; it fired on a
+        # try / except KeyError rewrite, refactored/C19-R5): an element type already committed is returned untouched, a
+        # missing one receives the material's zero state and nothing else changes
+        from types import SimpleNamespace as _NS
+        from ..xeval import Interp as _I19, XObj as _X19, XRaise as _XR19
+
+        held = ["committed-A"]
+        zero = ["zeros"]
+        d0 = {"A": held}
+        o = _X19(sim, {sim.mangle("__zOld"): d0, "material": _NS(State_zeros=lambda Ne, nPg: zero), sim.mangle("__z"): {}})
+        mkg = lambda et: _NS(elemType=et, Ne=2, Get_gauss=lambda mt=None: _NS(nPg=3))
+        try:
+            a = _I19(repo).call_function(g, [mkg("A"), "mt"], self_obj=o)
+            b = _I19(repo).call_function(g, [mkg("B"), "mt"], self_obj=o)
+            d1 = o.attrs.get(sim.mangle("__zOld"))
+            ok = a is held and b == zero and isinstance(d1, dict) and d1.get("A") is held and d1.get("B") == zero and set(d1) == {"A", "B"} and held == ["committed-A"]
+        except _XR19:
+            ok = False
+        if ok:
             r2.ok("__Get_state only inserts State_zeros for a missing key")
         else:
             r2.fail(g.qualname, "lazy-init", g.file, g.lineno, "__Get_state", "the lazy initialisation of the committed state does more than insert zeros for a missing element type")
